@@ -7,6 +7,8 @@ CONSTANTS
   DescCap = 64
   MaxParam = 3
   NGuard = 16
+  NObjHash = 11
+  HashHash = {8, 9, 10}
   BigLens = {10000, 100000, 1000000}
   Depths = {10, 100, 1000, 10000}
 INVARIANTS Inv_IndexBelowCapacity Inv_LenWithinCap Inv_ObjDiagnosed
